@@ -362,6 +362,28 @@ def _spec_helpers():
         obs = getattr(I.ctx, "observations", [])
         return len([o for o in obs if len(args) == 0 or o["op"] == args[0]])
 
+    @reg("ufo")
+    def ufo(I, args, kw):
+        """Uninterpreted spec function with an opaque result: ufo(tag, name, *args). Arguments are flattened to scalars."""
+        tag, name = args[0], args[1]
+        flat = []
+
+        def rec(v):
+            if isinstance(v, (tuple, list)):
+                for x in v:
+                    rec(x)
+            elif isinstance(v, Opaque):
+                flat.append(v.z)
+            elif v is None:
+                flat.append(z3.StringVal("<None>"))
+            else:
+                flat.append(z_of(v))
+
+        for a in args[2:]:
+            rec(a)
+        f = z3.Function(f"spec_{name}", *[x.sort() for x in flat], opq_sort(tag))
+        return Opaque(f(*flat), tag)
+
     @reg("row")
     def row(I, args, kw):
         from .externals import PRow
